@@ -131,7 +131,7 @@ def run(ck, pid):
     else:
         results = [run_variant(pid, p) for p in patches]
     results.append(run_renamed_tree(pid))
-    for kind in ('noop', 'unbraced', 'mirrored', 'inverted'):
+    for kind in ('noop', 'unbraced', 'mirrored', 'inverted', 'extracted'):
         results.append(run_transformed_tree(pid, kind))
     ck.extra['seeded_variants'] = results
     noisy = [r for r in results if r['status'].startswith('FALSE-ALARM')]
